@@ -267,14 +267,14 @@ class Recorder:
             return []
 
 
-def run_once(c, lims, reeval=False, checks=True, evaluation_points=None):
+def run_once(c, lims, reeval=False, checks=True, evaluation_points=None, max_time=None):
     """one adaptive run; returns (S, recorder, ret)"""
     S = build(c)
     rec = Recorder(S, lims['tol'], check_comb=checks, ignore_points=evaluation_points or ())
     with impl.quiet(), impl.watchdog(c.get('timeout', 240)):
         ret = S['combi'].performSpatiallyAdaptiv(c['lmin'], c['lmax'], S['ec'], tol=lims['tol'], max_evaluations=lims['max'],
                                                 min_evaluations=lims['min'], print_output=False, reevaluate_at_end=reeval,
-                                                evaluation_points=evaluation_points)
+                                                evaluation_points=evaluation_points, **({} if max_time is None else {'max_time': max_time}))
     return S, rec, ret
 
 
